@@ -17,7 +17,7 @@ RULE = (
 )
 TIERS = {"quick": {"shards": 8, "n": 280, "budget_s": 200}, "thorough": {"shards": 16, "n": 6000, "budget_s": 2700}}
 FLOOR = {"quick": 150, "thorough": 10000}
-REQUIRED_LABELS = {"quick": ["d:neg-int", "d:bool", "d:str", "d:None", "kind:literal", "kind:optint"], "thorough": []}
+REQUIRED_LABELS = {"quick": ["undocumented-suffix", "d:neg-int", "d:bool", "d:str", "d:None", "kind:literal", "kind:optint"], "thorough": []}
 ASSUMPTIONS = ["descriptions avoid the type-hint trigger words; string defaults are plain (non-empty, dot-free)"]
 
 FORMATS = [
@@ -62,8 +62,21 @@ def seen_default_later(case, name):
     return False
 
 
+@st.composite
+def undocumented_suffix(draw):
+    """the last 2..3 parameters carry no description at all (type and default only): after a ReST/annotated function
+    hop they exist only in the signature and are merged back in by position"""
+    case = draw(gen_ir.interface("signature", suffix=True, min_params=3, max_params=6))
+    k = draw(st.integers(2, min(3, len(case["params"]) - 1)))
+    for _n, p in case["params"][-k:]:
+        p.pop("doc", None)
+    case["undocumented_suffix"] = k
+    return case
+
+
 def strategy(ctx):
     return st.one_of(
+        undocumented_suffix(),
         gen_ir.interface("signature", suffix=True),
         gen_ir.interface("signature", suffix=True, min_params=2, max_params=5),
         gen_ir.interface("signature", suffix=True, doc=gen_ir.mixed_descr, name_strategy=gen_ir.rich_names),
@@ -152,6 +165,8 @@ def check_cell(r, case, cell):
         if wd != gd:
             if fmt == "argparse" and is_open("P13") and "default" not in p and (ac & {"P13-zero", "P13-bool", "P13-list"}):
                 r.covered("P13")
+            elif style == "google" and fmt == "function" and not p.get("doc") and "default" in p and any("default" in q for _m, q in params[: [x for x, _ in params].index(n)]) and is_open("P61"):
+                r.covered("P61")  # forced zero-value default of an empty google entry overrides the signature's default
             else:
                 r.fail("default", "%s %s (%s): %r -> %r" % (tag, n, wt, wd, gd))
         # ---- description
@@ -166,6 +181,8 @@ def check_cell(r, case, cell):
             r.covered(doc_lost)
         elif style == "google" and fmt != "argparse" and case["returns"] is not None and is_open("P41"):
             r.covered("P41")  # the unrecognised return section is folded into the header
+        elif style == "google" and fmt != "argparse" and params and not params[-1][1].get("doc") and is_open("P60"):
+            r.covered("P60")  # a last google entry with an empty description is read back as header text
         else:
             r.fail("header", "%s %r -> %r" % (tag, case["doc"], back.get("doc")))
     wr = case["returns"]
@@ -202,6 +219,8 @@ def oracle(case):
     for cell in case.get("cells") or CELLS:
         check_cell(r, case, tuple(cell))
     r.label(*gen_ir.labels_of(case))
+    if case.get("undocumented_suffix"):
+        r.label("undocumented-suffix")
     if case.get("excluded_code_defaults"):
         r.label("excluded-by-construction:P43-code-default")
     ps = [p for _n, p in case["params"]]
